@@ -355,9 +355,12 @@ def _pair_path(ep, segs, D, reach=None):
                     acc = T._iv_meet(acc, reach)
                 for c, okk, text in field_agreement(s, r, acc):
                     res.append((c, okk, text))
-                if s.operand[0] == 'len' and any(
-                        getattr(x, 'term', None) is s.operand[1]
-                        for _o, x in placed):
+                if s.operand[0] == 'len' and (
+                        any(getattr(x, 'term', None) is s.operand[1]
+                            for _o, x in placed) or
+                        T.mentions(dp.consumed, lambda t: t is r.term)):
+                    # a length prefix: the encoder writes a len() and the
+                    # decoder uses the value read there as a length
                     prefix_read = (s, r, o)
         for r in reads:
             if r.term not in used:
